@@ -15,6 +15,7 @@ import (
 	"path/filepath"
 	"runtime"
 	"strings"
+	"sync"
 	"sync/atomic"
 	"syscall"
 	"time"
@@ -22,6 +23,7 @@ import (
 
 	"github.com/EdgeCast/vflow/producer"
 	"github.com/EdgeCast/vflow/zzverif/mck"
+	"github.com/EdgeCast/vflow/zzverif/sched"
 	"github.com/EdgeCast/vflow/zzverif/venv"
 )
 
@@ -1022,12 +1024,17 @@ func stallSpace(tier string) mck.Space {
 // udpSpace: udp socket configuration; the sink is a UDP listener that is up / down per message.
 func udpSpace(tier string) mck.Space {
 	const nmsg = 6
-	dims := mck.Radix{1 << (nmsg - 1), 3, nKinds} // sink down-mask for messages 2..6, retry-max, message kind
+	dims := mck.Radix{1 << (nmsg - 1), 3, nKinds, 2} // sink down-mask for messages 2..6, retry-max, message kind, handed over one at a time / all queued before the producer starts
 	return mck.FuncSpace{N: dims.Size(), F: func(idx uint64, c *mck.Ctx) {
 		d := dims.Digits(idx)
 		hand, msgs := messages(d[2])
+		queued := d[3] == 1
+		if queued && d[0] != 0 {
+			c.Skip() // a burst waiting in the queue is delivered to a sink that is up
+			return
+		}
 		desc := func() interface{} {
-			return map[string]interface{}{"protocol": "udp", "sink_down_mask": fmt.Sprintf("%05b", d[0]), "retry-max": d[1], "messages": d[2]}
+			return map[string]interface{}{"protocol": "udp", "sink_down_mask": fmt.Sprintf("%05b", d[0]), "retry-max": d[1], "messages": d[2], "handed_over": map[bool]string{false: "one at a time", true: "all queued before the producer starts"}[queued]}
 		}
 		c.SetCase(desc)
 		var ln *net.UDPConn
@@ -1052,8 +1059,13 @@ func udpSpace(tier string) mck.Space {
 		p.MQErrorCount = &ec
 		p.Logger = log.New(io.Discard, "", 0)
 		p.Chan = make(chan []byte)
+		if queued {
+			p.Chan = make(chan []byte, nmsg+1)
+		}
 		done := make(chan error, 1)
-		go func() { done <- p.Run() }()
+		if !queued {
+			go func() { done <- p.Run() }()
+		}
 		var got [][]byte
 		read := func() {
 			if ln == nil {
@@ -1083,7 +1095,7 @@ func udpSpace(tier string) mck.Space {
 			if len(m)+1 > 65000 {
 				continue // larger than a UDP datagram: outside the udp configuration
 			}
-			if i > 0 {
+			if i > 0 && !queued {
 				waitIdle()
 				down := d[0]&(1<<(i-1)) != 0
 				if down && ln != nil {
@@ -1108,6 +1120,9 @@ func udpSpace(tier string) mck.Space {
 			}
 		}
 		close(p.Chan)
+		if queued {
+			go func() { done <- p.Run() }()
+		}
 		select {
 		case <-done:
 		case <-time.After(10 * time.Second):
@@ -1152,6 +1167,98 @@ func udpSpace(tier string) mck.Space {
 	}}
 }
 
+// prod.two (scheduler space, built with the producer package fully instrumented): the collector runs one producer
+// per protocol in ONE process. Two rawSocket producers, each with its own (virtual) sink and its own queue holding a
+// burst; every interleaving of the two - a scheduling point at every queue operation and before every write enters
+// the "kernel". What a sink receives must be exactly its own producer's messages, each newline-terminated, in order.
+func twoSpace(tier string) mck.Space {
+	sets := [][2][]string{
+		{{`{"p":1,"n":1}`, `{"p":1,"n":2,"pad":"xxxxxxxxxxxxxxxx"}`}, {`{"p":2,"n":1,"pad":"yyyyyyyy"}`, `{"p":2,"n":2}`}},
+		{{`{"p":1}`, `{"p":1,"n":2}`, `{"p":1,"n":3}`}, {`{"q":"100%d %s"}`}},
+		{{`a`}, {`bbbbbbbbbbbbbbbbbbbbbbbbbbbbbbbbbbbbbbbbbbbbbbbbbbbbbbbbbbbbbbbbbbbbbbbb`, `c`}},
+	}
+	return mck.FuncSpace{N: uint64(len(sets)), F: func(idx uint64, c *mck.Ctx) {
+		set := sets[idx]
+		desc := func() interface{} {
+			return map[string]interface{}{"producers": 2, "protocol": "tcp (virtual sinks)", "messages_1": set[0], "messages_2": set[1], "deviation_bound": map[bool]int{false: 2, true: 4}[tier == "thorough"]}
+		}
+		c.SetCase(desc)
+		var cfgs [2]string
+		for i := range cfgs {
+			cfgs[i] = filepath.Join(tmpDir(), fmt.Sprintf("mq-two-%d.conf", i))
+			os.WriteFile(cfgs[i], []byte(fmt.Sprintf("url: sink%d.test:9555\nprotocol: tcp\nretry-max: 1\n", i)), 0644)
+		}
+		var obs string
+		var obsMu sync.Mutex
+		body := func() {
+			var sinks [2]*venv.VSink
+			var ids []int
+			var ecs [2]uint64
+			for i := 0; i < 2; i++ {
+				i := i
+				sinks[i] = &venv.VSink{}
+				venv.SetVirtualSink(fmt.Sprintf("sink%d.test:9555", i), sinks[i])
+				p := producer.NewProducer("rawSocket")
+				p.MQConfigFile = cfgs[i]
+				p.MQErrorCount = &ecs[i]
+				p.Logger = log.New(io.Discard, "", 0)
+				p.Chan = make(chan []byte, 8)
+				for _, m := range set[i] {
+					p.Chan <- []byte(m)
+				}
+				sched.ChanClose(p.Chan) // the scheduler must know: a receive on the drained queue is then enabled
+				close(p.Chan)
+				ids = append(ids, sched.GoNamed(fmt.Sprintf("producer %d", i+1), func() { p.Run() }))
+			}
+			for _, id := range ids {
+				sched.Join(id)
+			}
+			var o []string
+			for i := 0; i < 2; i++ {
+				var want []string
+				for _, m := range set[i] {
+					want = append(want, m+"\n")
+				}
+				got := string(bytes.Join(sinks[i].Got, nil))
+				o = append(o, got)
+				if got != strings.Join(want, "") {
+					sched.Fail("producer:two-producers:sink-received-something-else", fmt.Sprintf("sink %d received %q, its producer was handed %q", i+1, got, want))
+				}
+			}
+			obsMu.Lock()
+			obs = strings.Join(o, "|")
+			obsMu.Unlock()
+		}
+		reported := map[string]bool{}
+		outcomes := map[string]bool{}
+		bound := 2
+		if tier == "thorough" {
+			bound = 4
+		}
+		st := sched.Explore(sched.Config{Bound: bound, OnExec: func(r *sched.Result) {
+			c.States(1)
+			c.Transitions(uint64(r.Steps))
+			obsMu.Lock()
+			outcomes[obs] = true
+			obsMu.Unlock()
+			if r.FailSig != "" && !reported[r.FailSig] {
+				reported[r.FailSig] = true
+				d := desc().(map[string]interface{})
+				d["schedule"] = fmt.Sprint(r.Choices)
+				c.Violation(r.FailSig, r.FailMsg, d)
+			}
+		}}, body)
+		c.Count("executions", uint64(st.Executions))
+		if !st.Complete {
+			c.Incomplete()
+		}
+		c.Depth(uint64(st.MaxDepth))
+		c.Nontrivial(mck.HashStr("two", fmt.Sprint(idx)))
+		c.Outcome(fmt.Sprintf("set %d: executions=%d outcomes=%d", idx, st.Executions, len(outcomes)))
+		c.Sample(desc)
+	}}
+}
+
 func main() {
-	mck.Main(map[string]func(string) mck.Space{"prod.tcp": tcpSpace, "prod.burst": burstSpace, "prod.stall": stallSpace, "prod.move": moveSpace, "prod.udp": udpSpace})
+	mck.Main(map[string]func(string) mck.Space{"prod.tcp": tcpSpace, "prod.burst": burstSpace, "prod.stall": stallSpace, "prod.move": moveSpace, "prod.udp": udpSpace, "prod.two": twoSpace})
 }
